@@ -35,6 +35,7 @@ NONTRIVIAL_RULE = "processed an event that entered or left a final state"
 BOUNDS = {
     "done_step": "machine DM (and DM2 with prefix-named regions); every stable legal configuration; one event of the 7-letter alphabet; both engines",
     "done_run": "machine DM; event sequences of length <= N (item label) over the alphabet from start(); both engines",
+    "nested_final": "a final state nested in a compound (1 or 2 levels) or in every region of a parallel state, no ancestor declaring onDone: entering it does not complete the machine (status running, no output, on_done hook silent), the next event is handled, the top-level final state then completes it once; both engines",
     "double_final": "machine DF (a parallel state whose region leaf and the root both handle one event, each transition entering a different top-level final state); one event / one batch / two sends; both engines: status done once, on_done hook once, output not overwritten",
     "top_final": "4 machine variants (machine-level output absent / literal / falsy literal / callable) x final-state output; sequences of <= 3 events after completion",
 }
@@ -369,6 +370,85 @@ def double_final(eng: int, how: int) -> bool:
     return verdict(why is None)
 
 
+def nested_final(eng: int, shape: int) -> bool:
+    """
+    pre: 0 <= eng <= 1
+    pre: gate('nested_final', eng=eng, shape=shape)
+    post: _
+    """
+    from xstate_statemachine import Interpreter, SyncInterpreter, create_machine
+
+    eng = pick(eng, 2)
+    sh = pick(shape, 3)     # the nested final state sits in a compound / two levels deep / in every region of a parallel state
+    key = f"NF{sh}"
+    m = _M.get(key)
+    if m is None:
+        env.install()
+        if sh == 0:
+            work: Dict[str, Any] = {"initial": "busy", "states": {"busy": {"on": {"FIN": "finished"}}, "finished": {"type": "final", "output": "nested-out"}}}
+        elif sh == 1:
+            work = {"initial": "inner", "states": {"inner": {"initial": "busy", "states": {"busy": {"on": {"FIN": "finished"}},
+                                                                                             "finished": {"type": "final", "output": "nested-out"}}}}}
+        else:
+            work = {"type": "parallel", "states": {
+                "r1": {"initial": "busy", "states": {"busy": {"on": {"FIN": "finished"}}, "finished": {"type": "final"}}},
+                "r2": {"initial": "busy", "states": {"busy": {"on": {"FIN": "finished"}}, "finished": {"type": "final"}}}}}
+        work["on"] = {"NEXT": "#n.end", "PING": {"actions": _tr("ping")}}
+        cfg = {"id": "n", "initial": "work", "states": {"work": work, "end": {"type": "final", "output": "top-out"}}}
+        m = create_machine(common.mark(cfg), logic=make_logic())
+        env.pin_hashes(m)
+        _M[key] = m
+    hook = _DoneHook()
+    rec: List[Any] = []
+    obs: Dict[str, Any] = {}
+    if eng == 0:
+        it = SyncInterpreter(m)
+        it.__dict__["_rec"] = rec
+        it.use(hook)
+        it.start()
+        it.send("FIN")
+        obs["mid"] = (it.status, it.output, len(hook.done))
+        del rec[:]
+        it.send("PING")
+        obs["ping"] = [s_ for k_, s_, _e in rec if k_ == "tr"]
+        it.send("NEXT")
+        obs["end"] = (it.status, it.output, list(hook.done))
+        it.stop()
+    else:
+        it2 = Interpreter(m)
+        it2.__dict__["_rec"] = rec
+        it2.use(hook)
+
+        async def go() -> None:
+            await it2.start()
+            await it2.send("FIN")
+            await it2._event_queue.join()
+            obs["mid"] = (it2.status, it2.output, len(hook.done))
+            del rec[:]
+            await it2.send("PING")
+            await it2._event_queue.join()
+            obs["ping"] = [s_ for k_, s_, _e in rec if k_ == "tr"]
+            await it2.send("NEXT")
+            import asyncio
+
+            for _ in range(10):
+                await asyncio.sleep(0)
+            obs["end"] = (it2.status, it2.output, list(hook.done))
+            await it2.stop()
+
+        common.drive(go())
+    why = None
+    if obs["mid"] != ("running", None, 0):
+        why = f"after entering a NESTED final state: status/output/on_done calls = {obs['mid']}; only a final child of the root completes the machine"
+    elif obs["ping"] != ["ping"]:
+        why = f"the event after the nested final state was not handled: {obs['ping']}"
+    elif obs["end"] != ("done", "top-out", ["top-out"]):
+        why = f"after the top-level final state: status/output/on_done = {obs['end']}"
+    if why:
+        _note(f"{'sync' if eng == 0 else 'async'} shape {sh}: {why}")
+    return verdict(why is None)
+
+
 def top_final(eng: int, variant: int, which: bool, k: int) -> bool:
     """
     pre: 0 <= eng <= 1
@@ -457,7 +537,7 @@ def top_final(eng: int, variant: int, which: bool, k: int) -> bool:
     return verdict(ok)
 
 
-OBLIGATIONS = {"done_step": done_step, "done_run": done_run, "top_final": top_final, "double_final": double_final}
+OBLIGATIONS = {"done_step": done_step, "done_run": done_run, "top_final": top_final, "double_final": double_final, "nested_final": nested_final}
 PROBES = {"done_step": [{"evsel": 0}, {"evsel": 2}, {"c0": 1, "c1": 1, "evsel": 2}],
           "top_final": [{"variant": 2, "which": True}, {"variant": 1, "which": True, "k": 1}]}
 
@@ -471,4 +551,5 @@ def items(tier: str, seed: int) -> List[Dict[str, Any]]:
         out.append({"ob": "done_run", "params": {"machine": "DM", "N": n}, "timeout": 280 if quick else 2400, "label": f"done_run[N={n}]"})
     out.append({"ob": "top_final", "params": {"machine": "TOP0"}, "timeout": 200, "label": "top_final"})
     out.append({"ob": "double_final", "params": {"machine": "TOP0"}, "timeout": 200, "label": "double_final"})
+    out.append({"ob": "nested_final", "params": {"machine": "TOP0"}, "timeout": 200, "label": "nested_final"})
     return out
